@@ -150,7 +150,23 @@ func accessPath(v ssa.Value, depth int) string {
 			return "nil"
 		}
 		return x.Value.ExactString()
+	case *ssa.TypeAssert:
+		// the payload wrapper of a protobuf oneof reached through a type assertion / type switch on the oneof
+		// interface: x.GetUserset().(*Userset_Union).Union is what the getter chain x.GetUnion() names
+		if pt, ok := x.AssertedType.(*types.Pointer); ok {
+			if nt, ok := pt.Elem().(*types.Named); ok && strings.Contains(nt.Obj().Name(), "_") && nt.Obj().Pkg() != nil && strings.HasPrefix(nt.Obj().Pkg().Path(), "github.com/openfga/api/proto") {
+				inner := accessPath(x.X, depth+1)
+				if i := strings.LastIndex(inner, "."); i > 0 && !strings.HasSuffix(inner, ")") {
+					return inner[:i]
+				}
+			}
+		}
 	case *ssa.Extract:
+		if ta, ok := x.Tuple.(*ssa.TypeAssert); ok && ta.CommaOk && x.Index == 0 {
+			if s := accessPath(ta, depth+1); !strings.HasPrefix(s, "‹") {
+				return s
+			}
+		}
 		return accessPath(x.Tuple, depth+1) + fmt.Sprintf("#%d", x.Index)
 	case *ssa.Lookup:
 		return accessPath(x.X, depth+1) + "[" + accessPath(x.Index, depth+1) + "]"
@@ -1018,4 +1034,74 @@ func callSitesOf(funcs []*ssa.Function, callee *ssa.Function) []ssa.CallInstruct
 		}
 	}
 	return out
+}
+
+// OnlyRuntimeReportsSyntaxErrors (C03 "every grammatical layout is accepted"): what makes a document fail is what the
+// grammar and the documented listener checks say — the collecting error listener is fed by the ANTLR runtime only.
+// Repository code neither calls its SyntaxError method nor writes its Errors field outside that method and the
+// constructor (a hand-written pre-check is a second, unreviewed grammar that can turn valid layouts down).
+func OnlyRuntimeReportsSyntaxErrors(p *load.Prog, r *oblig.Report, rule string) {
+	se := p.Method("transformer", "OpenFgaDslErrorListener", "SyntaxError")
+	if se == nil {
+		r.Unknown(rule, "error-source:anchor", "-", "(*OpenFgaDslErrorListener).SyntaxError not found")
+		return
+	}
+	sp := p.SSAPkg["transformer"]
+	var funcs []*ssa.Function
+	for _, m := range sp.Members {
+		if f, ok := m.(*ssa.Function); ok {
+			funcs = append(funcs, f)
+			funcs = append(funcs, f.AnonFuncs...)
+		}
+		if t, ok := m.(*ssa.Type); ok {
+			for _, typ := range []types.Type{t.Type(), types.NewPointer(t.Type())} {
+				ms := p.SSA.MethodSets.MethodSet(typ)
+				for i := 0; i < ms.Len(); i++ {
+					if f := p.SSA.MethodValue(ms.At(i)); f != nil && f.Pkg == sp && f.Synthetic == "" {
+						funcs = append(funcs, f)
+						funcs = append(funcs, f.AnonFuncs...)
+					}
+				}
+			}
+		}
+	}
+	seen := map[*ssa.Function]bool{}
+	n := 0
+	for _, f := range funcs {
+		if seen[f] {
+			continue
+		}
+		seen[f] = true
+		for _, b := range f.Blocks {
+			for _, in := range b.Instrs {
+				switch x := in.(type) {
+				case ssa.CallInstruction:
+					cc := x.Common()
+					direct := cc.StaticCallee() == se
+					if mc, ok := cc.Value.(*ssa.MakeClosure); ok && mc.Fn == ssa.Value(se) {
+						direct = true
+					}
+					if cc.IsInvoke() && cc.Method.Name() == "SyntaxError" {
+						direct = true // through the antlr.ErrorListener interface
+					}
+					if direct {
+						n++
+						r.Bad(rule, "error-source:call:"+load.FuncName(f), p.Pos(in.Pos()), load.FuncName(f)+" reports a syntax error itself (a call of SyntaxError outside the ANTLR runtime): a document the grammar accepts can be turned down by a hand-written check")
+					}
+				case *ssa.Store:
+					if fa, ok := x.Addr.(*ssa.FieldAddr); ok && f != se && !strings.HasPrefix(f.Name(), "new") {
+						if st, ok := fa.X.Type().Underlying().(*types.Pointer); ok && strings.HasSuffix(st.Elem().String(), ".OpenFgaDslErrorListener") {
+							if fieldNameOf(st.Elem(), fa.Field) == "Errors" {
+								n++
+								r.Bad(rule, "error-source:store:"+load.FuncName(f), p.Pos(in.Pos()), load.FuncName(f)+" writes the Errors field of the collecting listener outside SyntaxError: errors are added or removed behind the parser's back")
+							}
+						}
+					}
+				}
+			}
+		}
+	}
+	if n == 0 {
+		r.OK(rule, "error-source", p.Pos(se.Pos()), "who-may-call", fmt.Sprintf("%d functions of the package scanned: SyntaxError is reached only through the runtime, Errors is written only by it and the constructor", len(seen)))
+	}
 }
